@@ -53,6 +53,7 @@ type Root struct {
 	inputs   []ModelInput
 	locals   map[string]bool
 	seenAssume map[string]bool
+	stateReads map[string]bool
 }
 
 type ModelInput struct {
@@ -215,6 +216,10 @@ func copyState(m map[string]string) map[string]string {
 func (e *Enc) g() *Gen { return e.r.g }
 
 func (e *Enc) getState(name string) string {
+	if e.r.stateReads == nil {
+		e.r.stateReads = map[string]bool{}
+	}
+	e.r.stateReads[name] = true
 	if t, ok := e.st[name]; ok {
 		return t
 	}
